@@ -301,7 +301,23 @@ pub fn pool(rng: &mut Rng) -> Vec<Call> {
         }
     }
     for _ in 0..4 {
-        calls.push(Call::Synth(valid_text(rng, None).text));
+        let t = valid_text(rng, None).text;
+        // the same text with one field left out (TTL, class): whatever the verdict, it cannot depend on what the
+        // thread synthesised before (a remembered "last TTL", "last class", "last origin" would show here)
+        let toks: Vec<&str> = t.split(|c| c == ' ' || c == '\t').filter(|x| !x.is_empty()).collect();
+        if toks.len() >= 5 && !t.contains('"') {
+            for drop in [1usize, 2] {
+                let cut: Vec<&str> = toks.iter().enumerate().filter(|(i, _)| *i != drop).map(|(_, x)| *x).collect();
+                calls.push(Call::Synth(cut.join(" ")));
+            }
+        }
+        calls.push(Call::Synth(t));
+    }
+    // owner names the text grammar refuses for different reasons, next to each other: a verdict reached half-way
+    // through one name (a flag, a counter) must not carry over into the next one
+    for owner in ["ab..cd.", "a.bbbbbbbbbbbbbbbbbbbbbbbbbbbbbbbbbbbbbbbbbbbbbbbbbbbbbbbbbbbbbbbbbbbbbbbb.c.", "1.2.3.", "10.20.", "7.", "1.2.3", "x1.2.3.", "-a.example."] {
+        calls.push(Call::Synth(format!("{} 60 IN A 192.0.2.1", owner)));
+        calls.push(Call::RawName(owner.as_bytes().to_vec(), None));
     }
     // calls that FAIL belong to the pool as well: state abandoned on an error path is the likeliest leak
     {
